@@ -4,6 +4,7 @@
   §1 deadline arithmetic (`dl`, well-formed connection states, `next` keeps them well-formed)
   §2 runs: stalled scripts, the closing instant, anchors never move backwards
   §3 the accept loop: closed form (a function of the arrival instants alone, for every stacking)
+  §4 the keep-alive loop and the reader   §5 body stalls under ReadTimeout (F49: `settle`)
 -/
 import FwdVerif.Model.C15
 
@@ -63,6 +64,88 @@ theorem accepted_anchor (S : Stacking) (L : Limits) (t : Nat) : (accepted S L t)
   · rfl
   · split <;> rfl
 
+/-! ### `settle`: a body deadline does not close (F49) -/
+
+theorem settle_not_body {L : Limits} {c : Conn} (u : Nat) (h : c.phase ≠ .body) : settle L c u = c := by
+  unfold settle
+  split
+  · next hp _ => exact absurd hp h
+  · rfl
+
+theorem settle_no_deadline {L : Limits} {c : Conn} (u : Nat) (h : c.deadline = none) : settle L c u = c := by
+  unfold settle
+  split
+  · next _ hd => rw [h] at hd; cases hd
+  · rfl
+
+theorem settle_before {L : Limits} {c : Conn} {u : Nat} (h : ∀ d, c.deadline = some d → u < d) :
+    settle L c u = c := by
+  unfold settle
+  split
+  · next _ hd => rw [if_neg (by have := h _ hd; omega)]
+  · rfl
+
+theorem settle_body_expired {L : Limits} {c : Conn} {u d : Nat} (hp : c.phase = .body)
+    (hd : c.deadline = some d) (h : d ≤ u) : settle L c u = enter L .idle d := by
+  obtain ⟨ph, an, de⟩ := c
+  simp only at hp hd
+  subst hp hd
+  simp [settle, h]
+
+theorem settleEnd_not_body {L : Limits} {c : Conn} (h : c.phase ≠ .body) : settleEnd L c = c := by
+  unfold settleEnd
+  split
+  · next hp _ => exact absurd hp h
+  · rfl
+
+theorem settleEnd_no_deadline {L : Limits} {c : Conn} (h : c.deadline = none) : settleEnd L c = c := by
+  unfold settleEnd
+  split
+  · next _ hd => rw [h] at hd; cases hd
+  · rfl
+
+theorem settleEnd_body {L : Limits} {c : Conn} {d : Nat} (hp : c.phase = .body)
+    (hd : c.deadline = some d) : settleEnd L c = enter L .idle d := by
+  obtain ⟨ph, an, de⟩ := c
+  simp only at hp hd
+  subst hp hd
+  simp [settleEnd]
+
+theorem wf_settle {L : Limits} {c : Conn} (u : Nat) (h : WF L c) : WF L (settle L c u) := by
+  unfold settle
+  split
+  · split
+    · exact wf_enter ..
+    · exact h
+  · exact h
+
+theorem wf_settleEnd {L : Limits} {c : Conn} (h : WF L c) : WF L (settleEnd L c) := by
+  unfold settleEnd
+  split
+  · exact wf_enter ..
+  · exact h
+
+/-- a well-formed state's anchor does not move backwards when it settles -/
+theorem settle_anchor_ge {L : Limits} {c : Conn} (u : Nat) (h : WF L c) : c.anchor ≤ (settle L c u).anchor := by
+  unfold settle
+  split
+  · next _ hd =>
+    split
+    · have := dl_eq_some (h ▸ hd)
+      show c.anchor ≤ _
+      simp only [enter]; omega
+    · exact Nat.le_refl _
+  · exact Nat.le_refl _
+
+theorem settleEnd_anchor_ge {L : Limits} {c : Conn} (h : WF L c) : c.anchor ≤ (settleEnd L c).anchor := by
+  unfold settleEnd
+  split
+  · next _ hd =>
+    have := dl_eq_some (h ▸ hd)
+    show c.anchor ≤ _
+    simp only [enter]; omega
+  · exact Nat.le_refl _
+
 /-- an event that is no progress leaves the state alone -/
 theorem next_noProgress {S : Stacking} {L : Limits} {c : Conn} {t : Nat} {e : Ev}
     (h : noProgress c.phase e = true) : next S L c t e = c := by
@@ -71,6 +154,7 @@ theorem next_noProgress {S : Stacking} {L : Limits} {c : Conn} {t : Nat} {e : Ev
   | head k => simp [noProgress] at h
   | respStart => simp [noProgress] at h
   | tunnelUp => simp [noProgress] at h
+  | peeked => simp [noProgress] at h
   | data =>
     have h1 : c.phase ≠ .idle := by intro hc; simp [noProgress, hc] at h
     have h2 : c.phase ≠ .mitmPeek := by intro hc; simp [noProgress, hc] at h
@@ -79,25 +163,25 @@ theorem next_noProgress {S : Stacking} {L : Limits} {c : Conn} {t : Nat} {e : Ev
 
 /-! ## §2 runs -/
 
-theorem run_nil_some {S : Stacking} {L : Limits} {c : Conn} {d : Nat} (h : c.deadline = some d) :
-    run S L c [] = .closed d c.phase c.anchor := by
-  simp [run, h]
+theorem run_nil_some {S : Stacking} {L : Limits} {c : Conn} {d : Nat} (h : c.deadline = some d)
+    (hnb : c.phase ≠ .body) : run S L c [] = .closed d c.phase c.anchor := by
+  simp [run, settleEnd_not_body hnb, h]
 
 theorem run_nil_none {S : Stacking} {L : Limits} {c : Conn} (h : c.deadline = none) :
     run S L c [] = .stays c := by
-  simp [run, h]
+  simp [run, settleEnd_no_deadline h, h]
 
 /-- stray bytes do not move the closing instant -/
 theorem run_stalled_some {S : Stacking} {L : Limits} {c : Conn} {d : Nat} (hd : c.deadline = some d)
-    (evs : List (Nat × Ev)) (hs : ∀ x ∈ evs, noProgress c.phase x.2 = true) :
+    (hnb : c.phase ≠ .body) (evs : List (Nat × Ev)) (hs : ∀ x ∈ evs, noProgress c.phase x.2 = true) :
     run S L c evs = .closed d c.phase c.anchor := by
   induction evs with
-  | nil => exact run_nil_some hd
+  | nil => exact run_nil_some hd hnb
   | cons x rest ih =>
     obtain ⟨t, e⟩ := x
     have hx : noProgress c.phase e = true := hs (t, e) (List.mem_cons_self ..)
     have hr : ∀ y ∈ rest, noProgress c.phase y.2 = true := fun y hy => hs y (List.mem_cons_of_mem _ hy)
-    simp only [run, hd]
+    simp only [run, settle_not_body _ hnb, hd]
     split
     · rfl
     · rw [next_noProgress hx]; exact ih hr
@@ -111,18 +195,19 @@ theorem run_stalled_none {S : Stacking} {L : Limits} {c : Conn} (hd : c.deadline
     obtain ⟨t, e⟩ := x
     have hx : noProgress c.phase e = true := hs (t, e) (List.mem_cons_self ..)
     have hr : ∀ y ∈ rest, noProgress c.phase y.2 = true := fun y hy => hs y (List.mem_cons_of_mem _ hy)
-    simp only [run, hd]
+    simp only [run, settle_no_deadline _ hd, hd]
     rw [next_noProgress hx]; exact ih hr
 
 /-- one event that arrives before the deadline (or with none armed) is processed -/
 theorem run_cons_before {S : Stacking} {L : Limits} {c : Conn} {t : Nat} {e : Ev}
     (rest : List (Nat × Ev)) (h : ∀ d, c.deadline = some d → max t c.anchor < d) :
     run S L c ((t, e) :: rest) = run S L (next S L c (max t c.anchor) e) rest := by
+  have hst : settle L c (max t c.anchor) = c := settle_before h
   cases hd : c.deadline with
-  | none => simp [run, hd]
+  | none => simp [run, hst, hd]
   | some d =>
     have := h d hd
-    simp only [run, hd]
+    simp only [run, hst, hd]
     split
     · omega
     · rfl
@@ -134,50 +219,54 @@ theorem run_closed_wf {S : Stacking} {L : Limits} (evs : List (Nat × Ev)) {c : 
     0 < limitOf L p ∧ t = a + limitOf L p := by
   induction evs generalizing c with
   | nil =>
-    cases hd : c.deadline with
+    have hw := wf_settleEnd h
+    cases hd : (settleEnd L c).deadline with
     | none => simp [run, hd] at hr
     | some d =>
       simp only [run, hd] at hr
       injection hr with h1 h2 h3
       subst h1 h2 h3
-      exact dl_eq_some (h ▸ hd)
+      exact dl_eq_some (hw ▸ hd)
   | cons x rest ih =>
     obtain ⟨u, e⟩ := x
-    cases hd : c.deadline with
+    have hw := wf_settle (max u c.anchor) h
+    cases hd : (settle L c (max u c.anchor)).deadline with
     | none =>
       simp only [run, hd] at hr
-      exact ih (wf_next _ _ h) hr
+      exact ih (wf_next _ _ hw) hr
     | some d =>
       simp only [run, hd] at hr
       split at hr
       · injection hr with h1 h2 h3
         subst h1 h2 h3
-        exact dl_eq_some (h ▸ hd)
-      · exact ih (wf_next _ _ h) hr
+        exact dl_eq_some (hw ▸ hd)
+      · exact ih (wf_next _ _ hw) hr
 
 /-- a connection that is still open at the end has no deadline armed, and its state is well-formed -/
 theorem run_stays_wf {S : Stacking} {L : Limits} (evs : List (Nat × Ev)) {c c' : Conn} (h : WF L c)
     (hr : run S L c evs = .stays c') : WF L c' ∧ c'.deadline = none := by
   induction evs generalizing c with
   | nil =>
-    cases hd : c.deadline with
+    have hw := wf_settleEnd h
+    cases hd : (settleEnd L c).deadline with
     | none =>
       simp only [run, hd] at hr
       injection hr with h1
       subst h1
-      exact ⟨h, hd⟩
+      exact ⟨hw, hd⟩
     | some d => simp [run, hd] at hr
   | cons x rest ih =>
     obtain ⟨u, e⟩ := x
-    cases hd : c.deadline with
+    have hw := wf_settle (max u c.anchor) h
+    cases hd : (settle L c (max u c.anchor)).deadline with
     | none =>
       simp only [run, hd] at hr
-      exact ih (wf_next _ _ h) hr
+      exact ih (wf_next _ _ hw) hr
     | some d =>
       simp only [run, hd] at hr
       split at hr
       · cases hr
-      · exact ih (wf_next _ _ h) hr
+      · exact ih (wf_next _ _ hw) hr
 
 /-- the instant a phase's deadline counts from never moves backwards -/
 theorem next_anchor_ge {S : Stacking} {L : Limits} {c : Conn} {t : Nat} (e : Ev) (h : c.anchor ≤ t) :
@@ -187,11 +276,12 @@ theorem next_anchor_ge {S : Stacking} {L : Limits} {c : Conn} {t : Nat} (e : Ev)
     simp_all [next, enter, afterHead] <;> (split <;> simp_all)
 
 /-- the phase a connection is closed in did not begin before the state the run started from -/
-theorem run_closed_anchor_ge {S : Stacking} {L : Limits} (evs : List (Nat × Ev)) {c : Conn}
+theorem run_closed_anchor_ge {S : Stacking} {L : Limits} (evs : List (Nat × Ev)) {c : Conn} (h : WF L c)
     {t a : Nat} {p : Phase} (hr : run S L c evs = .closed t p a) : c.anchor ≤ a := by
   induction evs generalizing c with
   | nil =>
-    cases hd : c.deadline with
+    have hge := settleEnd_anchor_ge h
+    cases hd : (settleEnd L c).deadline with
     | none => simp [run, hd] at hr
     | some d =>
       simp only [run, hd] at hr
@@ -199,17 +289,27 @@ theorem run_closed_anchor_ge {S : Stacking} {L : Limits} (evs : List (Nat × Ev)
       omega
   | cons x rest ih =>
     obtain ⟨u, e⟩ := x
-    have hstep : c.anchor ≤ (next S L c (max u c.anchor) e).anchor := next_anchor_ge e (Nat.le_max_right ..)
-    cases hd : c.deadline with
+    have hw := wf_settle (max u c.anchor) h
+    have hge := settle_anchor_ge (max u c.anchor) h
+    have hle : (settle L c (max u c.anchor)).anchor ≤ max u c.anchor := by
+      unfold settle
+      split
+      · split
+        · simp only [enter]; assumption
+        · exact Nat.le_max_right ..
+      · exact Nat.le_max_right ..
+    have hstep : (settle L c (max u c.anchor)).anchor ≤
+        (next S L (settle L c (max u c.anchor)) (max u c.anchor) e).anchor := next_anchor_ge e hle
+    cases hd : (settle L c (max u c.anchor)).deadline with
     | none =>
       simp only [run, hd] at hr
-      exact Nat.le_trans hstep (ih hr)
+      exact Nat.le_trans hge (Nat.le_trans hstep (ih (wf_next _ _ hw) hr))
     | some d =>
       simp only [run, hd] at hr
       split at hr
       · injection hr with h1 h2 h3
         omega
-      · exact Nat.le_trans hstep (ih hr)
+      · exact Nat.le_trans hge (Nat.le_trans hstep (ih (wf_next _ _ hw) hr))
 
 /-! ## §3 accept loop -/
 
@@ -279,7 +379,9 @@ theorem wf_nextK {S : Stacking} {L : Limits} {k : KConn} (t : Nat) (e : Ev) (h :
   unfold nextK
   split
   · exact h
-  · exact wf_drain _ _ (wf_next _ _ h)
+  · split
+    · exact h
+    · exact wf_drain _ _ (wf_next _ _ h)
 
 /-- pieces that are no progress in a phase in which the proxy reads are consumed and change nothing -/
 theorem drain_noProgress {S : Stacking} {L : Limits} (t : Nat) {c : Conn} (es : List Ev)
@@ -300,38 +402,105 @@ theorem drain_notReading {S : Stacking} {L : Limits} (t : Nat) {c : Conn} (es : 
   | cons e es => simp [drain, hr]
 
 theorem nextK_reading_nil {S : Stacking} {L : Limits} {c : Conn} (t : Nat) (e : Ev)
-    (h : (notReading c.phase && sentByClient e) = false) :
+    (h : (notReading c.phase && sentByClient e) = false) (hpk : (c.phase == .body && e == .peeked) = false) :
     nextK S L ⟨c, []⟩ t e = ⟨next S L c t e, []⟩ := by
-  simp [nextK, h, drain]
+  simp [nextK, h, hpk, drain]
+
+/-! ### `settleK`: `settle` for the loop -/
+
+theorem bodyTimeout_not_body {c : Conn} (u : Nat) (h : c.phase ≠ .body) : bodyTimeout c u = none := by
+  unfold bodyTimeout
+  split
+  · next hp _ => exact absurd hp h
+  · rfl
+
+theorem bodyTimeout_no_deadline {c : Conn} (u : Nat) (h : c.deadline = none) : bodyTimeout c u = none := by
+  unfold bodyTimeout
+  split
+  · next _ hd => rw [h] at hd; cases hd
+  · rfl
+
+theorem bodyTimeout_before {c : Conn} {u : Nat} (h : ∀ d, c.deadline = some d → u < d) :
+    bodyTimeout c u = none := by
+  unfold bodyTimeout
+  split
+  · next _ hd => rw [if_neg (by have := h _ hd; omega)]
+  · rfl
+
+theorem settleK_of_none {S : Stacking} {L : Limits} {k : KConn} {u : Nat} (h : bodyTimeout k.conn u = none) :
+    settleK S L k u = k := by
+  simp [settleK, h]
+
+/-- with an empty reader `settleK` is `settle` -/
+theorem settleK_nil {S : Stacking} {L : Limits} (c : Conn) (u : Nat) :
+    settleK S L ⟨c, []⟩ u = ⟨settle L c u, []⟩ := by
+  obtain ⟨ph, an, de⟩ := c
+  cases ph <;> cases de <;> simp [settleK, settle, bodyTimeout, drain]
+  rename_i d
+  by_cases h : d ≤ u <;> simp [h, drain]
+
+theorem settleEndK_nil {S : Stacking} {L : Limits} (c : Conn) :
+    settleEndK S L ⟨c, []⟩ = ⟨settleEnd L c, []⟩ := by
+  obtain ⟨ph, an, de⟩ := c
+  cases ph <;> cases de <;> simp [settleEndK, settleEnd, drain]
+
+theorem settleEndK_not_body {S : Stacking} {L : Limits} {k : KConn} (h : k.conn.phase ≠ .body) :
+    settleEndK S L k = k := by
+  unfold settleEndK
+  split
+  · next hp _ => exact absurd hp h
+  · rfl
+
+theorem settleEndK_no_deadline {S : Stacking} {L : Limits} {k : KConn} (h : k.conn.deadline = none) :
+    settleEndK S L k = k := by
+  unfold settleEndK
+  split
+  · next _ hd => rw [h] at hd; cases hd
+  · rfl
+
+theorem wf_settleK {S : Stacking} {L : Limits} {k : KConn} (u : Nat) (h : WF L k.conn) :
+    WF L (settleK S L k u).conn := by
+  unfold settleK
+  split
+  · exact wf_drain _ _ (wf_enter ..)
+  · exact h
+
+theorem wf_settleEndK {S : Stacking} {L : Limits} {k : KConn} (h : WF L k.conn) :
+    WF L (settleEndK S L k).conn := by
+  unfold settleEndK
+  split
+  · exact wf_drain _ _ (wf_enter ..)
+  · exact h
 
 /-- with nothing sent ahead the loop is the plain automaton -/
 theorem runK_eq_run {S : Stacking} {L : Limits} (evs : List (Nat × Ev)) {c : Conn}
     (h : noWriteAhead S L c evs = true) : runK S L ⟨c, []⟩ evs = run S L c evs := by
   induction evs generalizing c with
-  | nil => simp [runK, run]
+  | nil => simp [runK, run, settleEndK_nil]
   | cons x rest ih =>
     obtain ⟨t, e⟩ := x
     simp only [noWriteAhead, Bool.and_eq_true, Bool.not_eq_true'] at h
-    obtain ⟨h1, h2⟩ := h
-    simp only [runK, run]
-    rw [nextK_reading_nil _ _ h1, ih h2]
+    obtain ⟨⟨h1, h3⟩, h2⟩ := h
+    simp only [runK, run, settleK_nil]
+    rw [nextK_reading_nil (c := settle L c (max t c.anchor)) _ _ h1 h3, ih h2]
 
-theorem runK_nil_some {S : Stacking} {L : Limits} {k : KConn} {d : Nat} (h : k.conn.deadline = some d) :
-    runK S L k [] = .closed d k.conn.phase k.conn.anchor := by
-  simp [runK, h]
+theorem runK_nil_some {S : Stacking} {L : Limits} {k : KConn} {d : Nat} (h : k.conn.deadline = some d)
+    (hnb : k.conn.phase ≠ .body) : runK S L k [] = .closed d k.conn.phase k.conn.anchor := by
+  simp [runK, settleEndK_not_body hnb, h]
 
 theorem runK_nil_none {S : Stacking} {L : Limits} {k : KConn} (h : k.conn.deadline = none) :
     runK S L k [] = .stays k.conn := by
-  simp [runK, h]
+  simp [runK, settleEndK_no_deadline h, h]
 
 theorem runK_cons_before {S : Stacking} {L : Limits} {k : KConn} {t : Nat} {e : Ev}
     (rest : List (Nat × Ev)) (h : ∀ d, k.conn.deadline = some d → max t k.conn.anchor < d) :
     runK S L k ((t, e) :: rest) = runK S L (nextK S L k (max t k.conn.anchor) e) rest := by
+  have hst : settleK S L k (max t k.conn.anchor) = k := settleK_of_none (bodyTimeout_before h)
   cases hd : k.conn.deadline with
-  | none => simp [runK, hd]
+  | none => simp [runK, hst, hd]
   | some d =>
     have := h d hd
-    simp only [runK, hd]
+    simp only [runK, hst, hd]
     split
     · omega
     · rfl
@@ -340,18 +509,21 @@ theorem runK_cons_before {S : Stacking} {L : Limits} {k : KConn} {t : Nat} {e : 
 theorem nextK_noProgress {S : Stacking} {L : Limits} {c : Conn} {t : Nat} {e : Ev}
     (hr : notReading c.phase = false) (h : noProgress c.phase e = true) :
     nextK S L ⟨c, []⟩ t e = ⟨c, []⟩ := by
-  rw [nextK_reading_nil _ _ (by simp [hr]), next_noProgress h]
+  have he : e = .data := by
+    cases e <;> simp_all [noProgress]
+  subst he
+  rw [nextK_reading_nil _ _ (by simp [hr]) (by simp), next_noProgress h]
 
 theorem runK_stalled_some {S : Stacking} {L : Limits} {c : Conn} {d : Nat} (hd : c.deadline = some d)
-    (hr : notReading c.phase = false) (evs : List (Nat × Ev))
+    (hnb : c.phase ≠ .body) (hr : notReading c.phase = false) (evs : List (Nat × Ev))
     (hs : ∀ x ∈ evs, noProgress c.phase x.2 = true) :
     runK S L ⟨c, []⟩ evs = .closed d c.phase c.anchor := by
   induction evs with
-  | nil => exact runK_nil_some hd
+  | nil => exact runK_nil_some hd hnb
   | cons x rest ih =>
     obtain ⟨t, e⟩ := x
     have hx : noProgress c.phase e = true := hs (t, e) (List.mem_cons_self ..)
-    simp only [runK, hd]
+    simp only [runK, settleK_of_none (k := ⟨c, []⟩) (bodyTimeout_not_body _ hnb), hd]
     split
     · rfl
     · rw [nextK_noProgress hr hx]; exact ih (fun y hy => hs y (List.mem_cons_of_mem _ hy))
@@ -365,7 +537,7 @@ theorem runK_stalled_none {S : Stacking} {L : Limits} {c : Conn} (hd : c.deadlin
   | cons x rest ih =>
     obtain ⟨t, e⟩ := x
     have hx : noProgress c.phase e = true := hs (t, e) (List.mem_cons_self ..)
-    simp only [runK, hd]
+    simp only [runK, settleK_of_none (k := ⟨c, []⟩) (bodyTimeout_no_deadline _ hd), hd]
     rw [nextK_noProgress hr hx]; exact ih (fun y hy => hs y (List.mem_cons_of_mem _ hy))
 
 /-- the loop closes a connection only at `anchor + limit` of the phase it stalled in -/
@@ -374,26 +546,28 @@ theorem runK_closed_wf {S : Stacking} {L : Limits} (evs : List (Nat × Ev)) {k :
     0 < limitOf L p ∧ t = a + limitOf L p := by
   induction evs generalizing k with
   | nil =>
-    cases hd : k.conn.deadline with
+    have hw := wf_settleEndK (S := S) h
+    cases hd : (settleEndK S L k).conn.deadline with
     | none => simp [runK, hd] at hr
     | some d =>
       simp only [runK, hd] at hr
       injection hr with h1 h2 h3
       subst h1 h2 h3
-      exact dl_eq_some (h ▸ hd)
+      exact dl_eq_some (hw ▸ hd)
   | cons x rest ih =>
     obtain ⟨u, e⟩ := x
-    cases hd : k.conn.deadline with
+    have hw := wf_settleK (S := S) (max u k.conn.anchor) h
+    cases hd : (settleK S L k (max u k.conn.anchor)).conn.deadline with
     | none =>
       simp only [runK, hd] at hr
-      exact ih (wf_nextK _ _ h) hr
+      exact ih (wf_nextK _ _ hw) hr
     | some d =>
       simp only [runK, hd] at hr
       split at hr
       · injection hr with h1 h2 h3
         subst h1 h2 h3
-        exact dl_eq_some (h ▸ hd)
-      · exact ih (wf_nextK _ _ h) hr
+        exact dl_eq_some (hw ▸ hd)
+      · exact ih (wf_nextK _ _ hw) hr
 
 theorem noProgress_partialHead {p : Phase} (b : Nat) (h : noProgress p .data = true) :
     ∀ e ∈ partialHead b, noProgress p e = true := by
@@ -409,7 +583,8 @@ theorem nextK_round_partialHead {S : Stacking} {L : Limits} {c : Conn} (u : Nat)
     rcases hp with hp | hp <;> simp [next, hp]
   have hnr : (notReading c.phase && sentByClient .complete) = false := by simp [sentByClient]
   obtain ⟨b, rfl⟩ : ∃ b', b = b' + 1 := ⟨b - 1, by omega⟩
-  simp only [nextK, hnr, hn, partialHead, List.replicate_succ]
+  have hpk : (c.phase == .body && Ev.complete == .peeked) = false := by simp
+  simp only [nextK, hnr, hpk, hn, partialHead, List.replicate_succ]
   simp only [Bool.false_eq_true, if_false, drain, enter, notReading]
   exact drain_noProgress u _ rfl (noProgress_partialHead b rfl)
 
@@ -441,7 +616,9 @@ theorem runK_buffer_pieces {S : Stacking} {L : Limits} {c : Conn} (hp : notReadi
   induction b generalizing as with
   | zero => simp [partialHead]
   | succ b ih =>
-    simp only [List.replicate_succ, List.cons_append, runK, hd]
+    have hnb : c.phase ≠ .body := by intro hb; rw [hb] at hp; cases hp
+    simp only [List.replicate_succ, List.cons_append, runK,
+      settleK_of_none (k := ⟨c, as⟩) (bodyTimeout_not_body _ hnb), hd]
     have hn : nextK S L ⟨c, as⟩ (max t c.anchor) .data = ⟨c, as ++ [.data]⟩ := by
       simp [nextK, hp, sentByClient]
     rw [hn, ih]
@@ -456,6 +633,104 @@ theorem dribble_all_data (s g n : Nat) : ∀ x ∈ dribble s g n, x.2 = .data :=
     rcases hx with rfl | hx
     · rfl
     · exact ih _ x hx
+
+/-! ## §5 a stall inside a request body under ReadTimeout (F49) -/
+
+theorem next_body_data {S : Stacking} {L : Limits} {c : Conn} (t : Nat) (hp : c.phase = .body) :
+    next S L c t .data = c :=
+  next_noProgress (by rw [hp]; rfl)
+
+/-- pieces of the body before the deadline `d`, then silence: answered 504 at `d`, idle from `d`, closed
+    one idle timeout later -/
+theorem run_body_silent {S : Stacking} {L : Limits} {c : Conn} {d : Nat} (hp : c.phase = .body)
+    (hd : c.deadline = some d) (hi : 0 < idleLimit L) (evs : List (Nat × Ev))
+    (hs : ∀ x ∈ evs, x.2 = .data ∧ max x.1 c.anchor < d) :
+    run S L c evs = .closed (d + idleLimit L) .idle d := by
+  induction evs with
+  | nil => simp [run, settleEnd_body hp hd, enter, limitOf, dl, hi]
+  | cons x rest ih =>
+    obtain ⟨t, e⟩ := x
+    obtain ⟨he, ht⟩ := hs (t, e) (List.mem_cons_self ..)
+    simp only at he ht
+    subst he
+    rw [run_cons_before rest (by intro d' h'; rw [hd] at h'; injection h' with h'; omega),
+      next_body_data _ hp]
+    exact ih (fun y hy => hs y (List.mem_cons_of_mem _ hy))
+
+theorem runK_body_silent {S : Stacking} {L : Limits} {c : Conn} {d : Nat} (hp : c.phase = .body)
+    (hd : c.deadline = some d) (hi : 0 < idleLimit L) (evs : List (Nat × Ev))
+    (hs : ∀ x ∈ evs, x.2 = .data ∧ max x.1 c.anchor < d) :
+    runK S L ⟨c, []⟩ evs = .closed (d + idleLimit L) .idle d := by
+  induction evs with
+  | nil => simp [runK, settleEndK_nil, settleEnd_body hp hd, enter, limitOf, dl, hi]
+  | cons x rest ih =>
+    obtain ⟨t, e⟩ := x
+    obtain ⟨he, ht⟩ := hs (t, e) (List.mem_cons_self ..)
+    simp only at he ht
+    subst he
+    rw [runK_cons_before rest (by intro d' h'; simp only at h'; rw [hd] at h'; injection h' with h'; show max t c.anchor < d'; omega),
+      nextK_noProgress (by rw [hp]; rfl) (by rw [hp]; rfl)]
+    exact ih (fun y hy => hs y (List.mem_cons_of_mem _ hy))
+
+/-- whatever pieces arrive and whenever: the phase in which a connection that stalled in a body is
+    finally closed did not begin before the body deadline `d` -/
+theorem run_body_stalled_anchor {S : Stacking} {L : Limits} {c : Conn} {d : Nat} (hp : c.phase = .body)
+    (hd : c.deadline = some d) (evs : List (Nat × Ev)) (hs : ∀ x ∈ evs, x.2 = .data)
+    {t s : Nat} {p : Phase} (hr : run S L c evs = .closed t p s) : d ≤ s := by
+  induction evs with
+  | nil =>
+    simp only [run, settleEnd_body hp hd] at hr
+    cases hdl : (enter L .idle d).deadline with
+    | none => simp [hdl] at hr
+    | some d' =>
+      simp only [hdl] at hr
+      injection hr with _ _ h3
+      rw [← h3]; exact Nat.le_refl _
+  | cons x rest ih =>
+    obtain ⟨t', e⟩ := x
+    have he : e = .data := hs (t', e) (List.mem_cons_self ..)
+    subst he
+    by_cases hdu : d ≤ max t' c.anchor
+    · have hst := settle_body_expired (L := L) hp hd hdu
+      have hnx : next S L (enter L .idle d) (max t' c.anchor) .data = enter L .header (max t' c.anchor) := rfl
+      have hge : ∀ {t s p}, run S L (enter L .header (max t' c.anchor)) rest = .closed t p s → d ≤ s := by
+        intro t s p h
+        have := run_closed_anchor_ge rest (wf_enter L .header (max t' c.anchor)) h
+        exact Nat.le_trans hdu this
+      simp only [run, hst] at hr
+      cases hdl : (enter L .idle d).deadline with
+      | none =>
+        simp only [hdl, hnx] at hr
+        exact hge hr
+      | some d' =>
+        simp only [hdl, hnx] at hr
+        split at hr
+        · injection hr with _ _ h3
+          rw [← h3]; exact Nat.le_refl _
+        · exact hge hr
+    · rw [run_cons_before rest (by intro d' h'; rw [hd] at h'; injection h' with h'; omega),
+        next_body_data _ hp] at hr
+      exact ih (fun y hy => hs y (List.mem_cons_of_mem _ hy)) hr
+
+/-- no body read is abandoned while an event arrives before the deadline of a phase other than `body` -/
+theorem timeoutsK_cons_before {S : Stacking} {L : Limits} {k : KConn} {t : Nat} {e : Ev}
+    (rest : List (Nat × Ev)) (hnb : k.conn.phase ≠ .body)
+    (h : ∀ d, k.conn.deadline = some d → max t k.conn.anchor < d) :
+    timeoutsK S L k ((t, e) :: rest) = timeoutsK S L (nextK S L k (max t k.conn.anchor) e) rest := by
+  have hst : settleK S L k (max t k.conn.anchor) = k := settleK_of_none (bodyTimeout_not_body _ hnb)
+  cases hd : k.conn.deadline with
+  | none => simp [timeoutsK, hst, hd, bodyTimeout_not_body _ hnb]
+  | some d =>
+    have := h d hd
+    simp only [timeoutsK, hst, hd, bodyTimeout_not_body _ hnb, Option.toList, List.nil_append]
+    rw [if_neg (by omega)]
+
+theorem timeoutsK_nil_body {S : Stacking} {L : Limits} {c : Conn} {d : Nat} (as : List Ev)
+    (hp : c.phase = .body) (hd : c.deadline = some d) : timeoutsK S L ⟨c, as⟩ [] = [d] := by
+  obtain ⟨ph, an, de⟩ := c
+  simp only at hp hd
+  subst hp hd
+  simp [timeoutsK]
 
 end C15
 end FwdVerif
